@@ -9,7 +9,8 @@ LEVEL = "fault_enumeration"
 RULE = ("cases = seeded gRPC service configs (several entries, entries naming several methods, timeout with/without retryPolicy, "
         "retryPolicy without timeout, fractional and nanosecond durations, a later duplicate entry, the same method name in two "
         "services, entries naming unknown methods); for every method every canonical status code is injected once (enumerated), plus "
-        "random fault sequences up to length 6, an endless retryable sequence, and explicit retry=/timeout= overrides, through sync "
+        "random fault sequences up to length 6, an endless retryable sequence, for retry-only entries a run of retryable failures whose "
+        "backoffs exceed 200 virtual seconds (no overall deadline may appear), and explicit retry=/timeout= overrides, through sync "
         "and asyncio clients; the judge compares attempts, per-attempt deadlines, the sleeps requested through a virtual clock "
         "(jitter pinned to its upper bound) and the outcome with a reference computed from the entry; distinct = distinct (entry "
         "kind, fault sequence shape, client kind, override) that held")
@@ -23,7 +24,7 @@ def floors(tier):
     k = 1 if tier == "quick" else 7
     return {"calls_judged": 3000 * k, "single_code_injections": 2000 * k, "retried_calls": 300 * k, "sleeps_compared": 600 * k,
             "deadlines_compared": 2500 * k, "retry_error_by_deadline": 20 * k, "unnamed_method_calls": 800 * k, "override_calls": 200 * k,
-            "client:aio": 1200 * k}
+            "client:aio": 1200 * k, "retry_only_entry_failing_for_minutes": 4 * k}
 
 
 def plan(seed, tier):
@@ -124,6 +125,14 @@ def run_case(case):
                     seqs.append((lp, "endless"))
                 else:
                     seqs.append((sorted(R) * 4, "long-retryable"))
+            else:
+                # no timeout in the entry: no overall deadline either, however long the failures last. Find a run of
+                # retryable failures whose backoffs add up to well over two minutes of virtual time
+                code = rng.choice(sorted(R))
+                for k in range(3, 41):
+                    if sum(reference(entry, [code] * k, {})[2]) > 200.0:
+                        seqs.append(([code] * k, "minutes-of-retryable-failures"))
+                        break
         seqs.append(([], "clean"))
         for seq, shape in seqs:
             for client in ("grpc", "aio"):
@@ -159,6 +168,8 @@ def run_case(case):
                 att, outcome, sleeps, per_attempt = a
         bump("calls_judged")
         bump("client:" + call["client"])
+        if call["shape"] == "minutes-of-retryable-failures":
+            bump("retry_only_entry_failing_for_minutes")
         if call["shape"] == "single":
             bump("single_code_injections")
         if not entry:
